@@ -157,18 +157,25 @@ def render(body, name='f'):
     """skeleton -> Python source of `def f(a): ...` (plain Python; executable control does not matter here,
     the harness executes an instrumented copy driven by decision vectors)"""
     lines = ['def %s(a, b=0):' % name]
-    _block(body, 1, lines)
+    # handler types and raised classes are not part of the skeleton: they rotate through the kinds below, starting at a
+    # position derived from the skeleton, so that every kind occurs in every syntactic position across the space
+    ctx = {'h': len(repr(body)) % 7, 'r': len(repr(body)) % 5}
+    _block(body, 1, lines, ctx)
     return '\n'.join(lines) + '\n'
 
 
-def _block(stmts, ind, lines):
+HANDLER_KINDS = ['E%d', 'Exception', '(E0, E1)', 'BaseException', 'KeyError', 'E%d', None]   # None: bare `except:` (last clause only)
+RAISE_KINDS = ['raise E(a)', 'raise E(a)', 'raise E0(a)', 'raise E(a)', 'raise KeyboardInterrupt']
+
+
+def _block(stmts, ind, lines, ctx):
     if not stmts:
         lines.append('    ' * ind + 'pass')
     for s in stmts:
-        _stmt(s, ind, lines)
+        _stmt(s, ind, lines, ctx)
 
 
-def _stmt(s, ind, lines):
+def _stmt(s, ind, lines, ctx):
     p = '    ' * ind
     k = s[0]
     if k == 'S':
@@ -180,7 +187,11 @@ def _stmt(s, ind, lines):
     elif k == 'RETL':
         lines.append(p + 'return lambda: a')
     elif k == 'RAISE':
-        lines.append(p + 'raise E(a)')
+        if len(s) > 1:
+            lines.append(p + s[1])                     # explicit text (targeted families)
+        else:
+            lines.append(p + RAISE_KINDS[ctx['r'] % len(RAISE_KINDS)])
+            ctx['r'] += 1
     elif k == 'BRK':
         lines.append(p + 'break')
     elif k == 'CONT':
@@ -195,34 +206,41 @@ def _stmt(s, ind, lines):
         lines.append(p + '        return self')
     elif k == 'DEFB':
         lines.append(p + 'def h(y):')
-        _block(s[1], ind + 1, lines)
+        _block(s[1], ind + 1, lines, ctx)
     elif k == 'IF':
         lines.append(p + 'if a:')
-        _block(s[1], ind + 1, lines)
+        _block(s[1], ind + 1, lines, ctx)
         if s[2]:
             lines.append(p + 'else:')
-            _block(s[2], ind + 1, lines)
+            _block(s[2], ind + 1, lines, ctx)
     elif k in ('WHILE', 'FOR'):
         lines.append(p + ('while a:' if k == 'WHILE' else 'for i in a:'))
-        _block(s[1], ind + 1, lines)
+        _block(s[1], ind + 1, lines, ctx)
         if s[2]:
             lines.append(p + 'else:')
-            _block(s[2], ind + 1, lines)
+            _block(s[2], ind + 1, lines, ctx)
     elif k == 'WITH':
         lines.append(p + 'with a as w, b:')
-        _block(s[1], ind + 1, lines)
+        _block(s[1], ind + 1, lines, ctx)
     elif k == 'TRY':
         lines.append(p + 'try:')
-        _block(s[1], ind + 1, lines)
+        _block(s[1], ind + 1, lines, ctx)
         for j, h in enumerate(s[2]):
-            lines.append(p + ('except E%d:' % j if j + 1 < len(s[2]) or j == 0 and len(s[2]) == 1 else 'except:'))
-            _block(h, ind + 1, lines)
+            if len(s) > 5:
+                lines.append(p + s[5][j])              # explicit clauses (targeted families)
+            else:
+                kind = HANDLER_KINDS[ctx['h'] % len(HANDLER_KINDS)]
+                ctx['h'] += 1
+                if kind is None and j + 1 < len(s[2]):
+                    kind = 'E%d'                       # a bare `except:` must be the last clause
+                lines.append(p + ('except:' if kind is None else 'except %s:' % (kind % j if '%d' in kind else kind)))
+            _block(h, ind + 1, lines, ctx)
         if s[3]:
             lines.append(p + 'else:')
-            _block(s[3], ind + 1, lines)
+            _block(s[3], ind + 1, lines, ctx)
         if s[4]:
             lines.append(p + 'finally:')
-            _block(s[4], ind + 1, lines)
+            _block(s[4], ind + 1, lines, ctx)
     else:
         raise ValueError(k)
 
@@ -306,6 +324,44 @@ def nested_try_family():
                                     if 'brk' in (ending, reach) or 'cont' in (ending, reach):
                                         body = [('WHILE', body, []), S]
                                     out.append(body)
+    return out
+
+
+def raise_handler_family():
+    """Targeted exhaustive family (quick tier): a try nested in the BODY of another try, both with handlers, over all
+    combinations of
+      inner / outer clauses   bare, `Exception`, `BaseException`, one class, a tuple of classes, class + `Exception`,
+                              class + bare
+      place                   the explicit raise sits in the inner body / the inner `else` block / the first inner handler
+      raised                  the generic `raise E(a)` (the decision vector picks the class, among them a class that is
+                              not an `Exception`), `raise KeyboardInterrupt`, `raise E0(a)`, `raise E1`
+      after                   a statement follows the inner try inside the outer body
+      ifin                    the inner try has a `finally` block
+    so that which handler of which try an explicit raise reaches depends on Python's matching rule.  The raise is
+    conditional, so the parts after it are live.  Returns a list of function bodies."""
+    S = ('S',)
+    CL = [['except:'], ['except Exception:'], ['except BaseException:'], ['except E0:'], ['except (E0, E1):'],
+          ['except E0:', 'except Exception:'], ['except E1:', 'except:']]
+    RS = ['raise E(a)', 'raise KeyboardInterrupt', 'raise E0(a)', 'raise E1']
+    out = []
+    for icl in CL:
+        for ocl in CL:
+            for place in ('body', 'else', 'handler'):
+                for r in RS:
+                    for after in (False, True):
+                        for ifin in (False, True):
+                            R = ('IF', [('RAISE', r)], [])
+                            if place == 'body':
+                                ibody = [S, R]
+                            elif place == 'handler':
+                                ibody = [S, ('IF', [('RAISE', 'raise E(a)')], [])]
+                            else:
+                                ibody = [S]
+                            ih = [[S, R] if (place == 'handler' and j == 0) else [S] for j in range(len(icl))]
+                            ielse = [S, R] if place == 'else' else []
+                            itry = ('TRY', ibody, ih, ielse, [S] if ifin else [], icl)
+                            otry = ('TRY', [itry] + ([S] if after else []), [[S] for _ in ocl], [], [], ocl)
+                            out.append([otry, ('RET',)])
     return out
 
 
